@@ -374,7 +374,7 @@ def configs(tier, seed):
     cfgs = []
     iters = 2 if tier == "quick" else 3
     armed = 1 if tier == "quick" else 2
-    depth = 2 if tier == "quick" else 3
+    depth = 2
     for spec, rec in DRIVERS:
         for tr in TRANSITIONS:
             for conv in (("plain",) if tier == "quick" else ("plain", "with_value")):
